@@ -211,6 +211,27 @@ def fuzz(pid, tier, seed, scale, wdir):
         res['executions'] = int(m[-1][0])
         res['coverage_edges'] = int(m[-1][1])
     found = [f for f in os.listdir(arts) if f.startswith(('crash-', 'timeout-', 'oom-'))]
+    # A libFuzzer timeout is a wall-clock event: nested loops over long strings are minutes of legitimate rendering. Only a
+    # *registration* that takes long is a verdict (parsing is not supposed to depend on anything but the input size), so
+    # every timeout artifact is replayed through `tvh regtime` (registration only); slow renders are counted, not reported.
+    tvh = os.path.join(WORK, 'target', 'release', 'tvh')
+    slow_renders = 0
+    confirmed = []
+    for f in sorted(found):
+        if not f.startswith('timeout-'):
+            continue
+        try:
+            p = subprocess.run([tvh, 'regtime', os.path.join(arts, f)], capture_output=True, text=True, timeout=180)
+            m = re.search(r'REGTIME ms=(\d+)', p.stdout)
+            ms = int(m.group(1)) if m else None
+        except subprocess.TimeoutExpired:
+            ms = 180000
+        if ms is not None and ms >= 20000:
+            confirmed.append(f)
+        else:
+            slow_renders += 1
+    res['slow_renders_not_reported'] = slow_renders
+    found = [f for f in found if f.startswith('crash-')] + confirmed
     for f in sorted(found)[:5]:
         if f.startswith('oom-'):
             continue
